@@ -271,7 +271,7 @@ func (g *Gen) nilCheck(st *State, p *Val, pos token.Pos, text string) {
 	if isConstTerm(p.S) && p.S != "0" {
 		return
 	}
-	if strings.HasPrefix(p.S, "|G|") || strings.HasPrefix(p.S, "(|sub|") || strings.HasPrefix(p.S, "(|ea|") || g.knownNonNil[p.S] {
+	if strings.HasPrefix(p.S, "|G!") || strings.HasPrefix(p.S, "(|sub!") || strings.HasPrefix(p.S, "(|ea!") || g.knownNonNil[p.S] {
 		return
 	}
 	g.oblige("nil", text, pos, st.reach, not(eq(p.S, "0")))
